@@ -1,4 +1,5 @@
 import Csverif.Proofs.Storage
+import Csverif.Proofs.StoragePaged
 /-
 C09 — storage backends behave as a tag-isolated map of rows.
 Model: Model/Storage.lean (SqliteStorage statement semantics; MockStorage fixture).
@@ -219,6 +220,213 @@ theorem creates_survive (ops : List (Op V)) (t : Table V) (h : Inv t)
     | readAll o => cases o <;> exact hl
     | reopen => exact hl
 
+/-! ### Size independence of `read_all`
+
+Nothing above bounds the number of rows.  The statements below make the `read_all` clause explicit for every reachable
+table of any size: the result is exactly the live rows of the tag (or of all tags) in strictly increasing id order, this
+determines the result uniquely, and a keyset-paged reader with the correct cursor rule returns the very same rows for
+EVERY page size `p ≥ 1` — paging must be invisible.  The off-by-one cursor rule (`pos = last id + 1` with a strict
+`id > pos`) is not: it loses the row after a full page, for every page size (`paged_off_by_one_loses_row`). -/
+
+/-- id order and ids ≥ 1 hold in every table reachable from the empty one (induction over the operation list) -/
+theorem sqlite_inv2_run (ops : List (Op V)) (t : Table V) (h : Inv2 t) : Inv2 (run t ops).1 := inv2_run ops t h
+
+theorem sqlite_init_inv2 : Inv2 ([] : Table V) := inv2_nil
+
+/-- `read_all` returns exactly the live rows of the tag (all tags for `none`), in strictly increasing id order,
+    for every table with the id-order invariant -/
+theorem read_all_exact_inv (t : Table V) (h : Inv2 t) (tag : Option Tag) :
+    ∃ rs, (step t (.readAll tag)).2 = .rows rs ∧ rs.Pairwise (fun a b => a.2.1 < b.2.1) ∧
+      ∀ tg n v, (tg, n, v) ∈ rs ↔ ((tag = none ∨ tag = some tg) ∧ abs t tg n = some v) := by
+  have hinv : Inv t := h.1.inv
+  have hs := sqlite_step_refines t hinv (.readAll tag)
+  cases tag with
+  | none =>
+    obtain ⟨_, rs, hrs, hmem⟩ := hs
+    refine ⟨rs, hrs, ?_, fun tg n v => by rw [hmem]; simp⟩
+    simp only [step, Res.rows.injEq] at hrs
+    subst hrs
+    rw [List.pairwise_map]
+    exact h.1
+  | some tag =>
+    obtain ⟨_, rs, hrs, hmem⟩ := hs
+    refine ⟨rs, hrs, ?_, fun tg n v => ?_⟩
+    · simp only [step, Res.rows.injEq] at hrs
+      subst hrs
+      rw [List.pairwise_map]
+      exact sorted_filter h.1 _
+    · rw [hmem]
+      constructor
+      · rintro ⟨a, b⟩; exact ⟨Or.inr (by rw [a]), b⟩
+      · rintro ⟨a | a, b⟩
+        · cases a
+        · exact ⟨(Option.some.inj a).symm, b⟩
+
+/-- … in particular after every operation sequence, whatever its length and however many rows it leaves -/
+theorem read_all_exact (ops : List (Op V)) (tag : Option Tag) :
+    ∃ rs, (step (run ([] : Table V) ops).1 (.readAll tag)).2 = .rows rs ∧ rs.Pairwise (fun a b => a.2.1 < b.2.1) ∧
+      ∀ tg n v, (tg, n, v) ∈ rs ↔ ((tag = none ∨ tag = some tg) ∧ abs (run ([] : Table V) ops).1 tg n = some v) :=
+  read_all_exact_inv _ (inv2_run ops [] inv2_nil) tag
+
+/-- "the live rows in id order" is one list: two strictly id-ordered lists with the same members are equal -/
+theorem read_all_unique (rs rs' : List (Tag × Nat × V))
+    (h : rs.Pairwise (fun a b => a.2.1 < b.2.1)) (h' : rs'.Pairwise (fun a b => a.2.1 < b.2.1))
+    (hm : ∀ x, x ∈ rs ↔ x ∈ rs') : rs = rs' := by
+  induction rs generalizing rs' with
+  | nil =>
+    cases rs' with
+    | nil => rfl
+    | cons y ys => exact absurd ((hm y).2 List.mem_cons_self) (by simp)
+  | cons x xs ih =>
+    cases rs' with
+    | nil => exact absurd ((hm x).1 List.mem_cons_self) (by simp)
+    | cons y ys =>
+      obtain ⟨hx, hxs⟩ := List.pairwise_cons.1 h
+      obtain ⟨hy, hys⟩ := List.pairwise_cons.1 h'
+      have hxy : x = y := by
+        rcases List.mem_cons.1 ((hm x).1 List.mem_cons_self) with e | hxin
+        · exact e
+        · rcases List.mem_cons.1 ((hm y).2 List.mem_cons_self) with e | hyin
+          · exact e.symm
+          · have := hx y hyin
+            have := hy x hxin
+            omega
+      subst hxy
+      congr 1
+      apply ih ys hxs hys
+      intro z
+      constructor
+      · intro hz
+        rcases List.mem_cons.1 ((hm z).1 (List.mem_cons_of_mem _ hz)) with e | hz'
+        · subst e; exact absurd (hx z hz) (Nat.lt_irrefl _)
+        · exact hz'
+      · intro hz
+        rcases List.mem_cons.1 ((hm z).2 (List.mem_cons_of_mem _ hz)) with e | hz'
+        · subst e; exact absurd (hy z hz) (Nat.lt_irrefl _)
+        · exact hz'
+
+/-- paging is invisible: a keyset-paged reader with the correct cursor rule (`pos := last id` for `id > pos`)
+    returns exactly what the single `SELECT` returns, for every page size `p ≥ 1` and every table in id order -/
+theorem paged_read_all_eq (t : Table V) (h : Inv2 t) (tag : Option Tag) (p : Nat) (hp : 1 ≤ p) :
+    pagedReadAll t tag p 0 = (step t (.readAll tag)).2 := by
+  unfold pagedReadAll
+  rw [pagedRows_correct t h tag p hp]
+  cases tag with
+  | none =>
+    simp only [step]
+    congr 2
+    rw [List.filter_eq_self]; intro _ _; rfl
+  | some tg => rfl
+
+/-- … hence for every reachable table of any size -/
+theorem paged_read_all_invisible (ops : List (Op V)) (tag : Option Tag) (p : Nat) (hp : 1 ≤ p) :
+    pagedReadAll (run ([] : Table V) ops).1 tag p 0 = (step (run ([] : Table V) ops).1 (.readAll tag)).2 :=
+  paged_read_all_eq _ (inv2_run ops [] inv2_nil) tag p hp
+
+/-! the off-by-one cursor rule -/
+
+/-- `n` rows of one tag with the contiguous ids `1..n` -/
+def contig (tag : Tag) (v : V) (n : Nat) : Table V := (List.range n).map (fun i => ⟨i + 1, tag, v⟩)
+
+theorem run_append (t : Table V) (a b : List (Op V)) :
+    (run t (a ++ b)).1 = (run (run t a).1 b).1 := by
+  induction a generalizing t with
+  | nil => rfl
+  | cons op a ih => simp only [List.cons_append, run]; exact ih _
+
+theorem maxId_append_single (t : Table V) (r : Row V) : maxId (t ++ [r]) = max (maxId t) r.id := by
+  induction t with
+  | nil => simp [maxId]
+  | cons x xs ih => simp only [List.cons_append, maxId, ih]; omega
+
+theorem maxId_contig (tag : Tag) (v : V) (n : Nat) : maxId (contig tag v n) = n := by
+  induction n with
+  | zero => rfl
+  | succ n ih =>
+    have : contig tag v (n + 1) = contig tag v n ++ [⟨n + 1, tag, v⟩] := by
+      simp [contig, List.range_succ]
+    rw [this, maxId_append_single, ih]; simp
+
+/-- the contiguous table is what `n` creates on a fresh file leave -/
+theorem contig_reachable (tag : Tag) (v : V) (n : Nat) :
+    (run ([] : Table V) (List.replicate n (.create tag v))).1 = contig tag v n := by
+  induction n with
+  | zero => rfl
+  | succ n ih =>
+    rw [List.replicate_succ', run_append, ih]
+    simp only [run, step, maxId_contig]
+    simp [contig, List.range_succ]
+
+theorem contig_sorted (tag : Tag) (v : V) (n : Nat) : Sorted (contig tag v n) := by
+  rw [← contig_reachable]
+  exact (inv2_run _ [] inv2_nil).1
+
+theorem contig_filter_sel (tag : Tag) (v : V) (n : Nat) :
+    (contig tag v n).filter (sel (some tag)) = contig tag v n := by
+  rw [List.filter_eq_self]
+  intro a ha
+  obtain ⟨i, _, rfl⟩ := List.mem_map.1 ha
+  simp [sel]
+
+/-- the off-by-one rule loses a row for EVERY page size: on `p + 1` contiguous rows the paged reader with
+    `pos := last id + 1` returns the first `p` rows only; the row with id `p + 1` is live and missing -/
+theorem paged_off_by_one_loses_row (tag : Tag) (v : V) (p : Nat) (hp : 1 ≤ p) :
+    pagedRows (contig tag v (p + 1)) (some tag) p 1 = contig tag v p ∧
+    abs (contig tag v (p + 1)) tag (p + 1) = some v ∧
+    (⟨p + 1, tag, v⟩ : Row V) ∉ pagedRows (contig tag v (p + 1)) (some tag) p 1 := by
+  have hrows : pagedRows (contig tag v (p + 1)) (some tag) p 1 = contig tag v p := by
+    unfold pagedRows
+    rw [pagedGo_eq_goL _ (contig_sorted tag v (p + 1)), contig_filter_sel]
+    have hlen : (contig tag v (p + 1)).length + 1 = (p + 1) + 1 := by simp [contig]
+    rw [hlen]
+    have hf0 : (contig tag v (p + 1)).filter (fun r => decide (0 < r.id)) = contig tag v (p + 1) := by
+      rw [List.filter_eq_self]
+      intro a ha
+      obtain ⟨i, _, rfl⟩ := List.mem_map.1 ha
+      simp
+    have htake : (contig tag v (p + 1)).take p = contig tag v p := by
+      simp only [contig, ← List.map_take, List.take_range]
+      congr 2
+      omega
+    have hlast : (contig tag v p).getLast? = some ⟨p, tag, v⟩ := by
+      obtain ⟨q, rfl⟩ : ∃ q, p = q + 1 := ⟨p - 1, by omega⟩
+      simp [contig, List.range_succ]
+    have hfp : (contig tag v (p + 1)).filter (fun r => decide (p + 1 < r.id)) = [] := by
+      rw [List.filter_eq_nil_iff]
+      intro a ha
+      obtain ⟨i, hi, rfl⟩ := List.mem_map.1 ha
+      have := List.mem_range.1 hi
+      simp only [decide_eq_true_eq]; omega
+    have hlenp : (contig tag v p).length = p := by simp [contig]
+    simp only [goL, hf0, htake, hlenp, Nat.lt_irrefl, if_false, hlast, hfp, List.take_nil, List.length_nil]
+    rw [if_pos (by omega)]
+    simp
+  refine ⟨hrows, ?_, ?_⟩
+  · rw [abs_eq_some_iff _ (contig_sorted tag v (p + 1)).inv]
+    exact List.mem_map.2 ⟨p, List.mem_range.2 (by omega), rfl⟩
+  · rw [hrows]
+    intro hmem
+    obtain ⟨i, hi, he⟩ := List.mem_map.1 hmem
+    have := List.mem_range.1 hi
+    simp only [Row.mk.injEq] at he
+    omega
+
+/-- kernel-checked witness: three creates on a fresh file, page size 2 — the off-by-one reader returns two rows,
+    `read_all` (and the correct paged reader) three -/
+theorem paged_off_by_one_differs :
+    let t := (run ([] : Table Nat) [.create "t" 10, .create "t" 20, .create "t" 30]).1
+    pagedReadAll t (some "t") 2 1 = .rows [("t", 1, 10), ("t", 2, 20)] ∧
+    pagedReadAll t (some "t") 2 0 = .rows [("t", 1, 10), ("t", 2, 20), ("t", 3, 30)] ∧
+    (step t (.readAll (some "t"))).2 = .rows [("t", 1, 10), ("t", 2, 20), ("t", 3, 30)] := by
+  decide
+
+/-- the off-by-one reader is only wrong when the id after a full page is a live row of the tag: with a gap
+    there (a row of another tag) it agrees — why small or gappy tables cannot expose it -/
+theorem paged_off_by_one_hidden_by_gap :
+    let t := (run ([] : Table Nat) [.create "t" 10, .create "t" 20, .create "u" 99, .create "t" 30]).1
+    pagedReadAll t (some "t") 2 1 = (step t (.readAll (some "t"))).2 := by
+  decide
+
 /-! Known findings about the `MockStorage` fixture (not editable: it is part of the test suite),
     as kernel-checked witnesses on the model; both are replayed on the real class on every run. -/
 
@@ -239,5 +447,9 @@ theorem mock_read_missing_raises :
     table-wide), and a two-tag table satisfies the invariant -/
 example : Sqlite.Inv ([⟨1, "a", 10⟩, ⟨2, "b", 20⟩, ⟨3, "a", 30⟩] : Table Nat) := by
   simp [Sqlite.Inv]
+
+/-- … and the id-order invariant of the size-independence theorems, on a table with a gap (id 3 deleted) -/
+example : Sqlite.Inv2 ([⟨1, "a", 10⟩, ⟨2, "b", 20⟩, ⟨4, "a", 30⟩] : Table Nat) := by
+  simp [Sqlite.Inv2, Sqlite.Sorted]
 
 end CS.Storage
